@@ -49,11 +49,16 @@ def configs(tier):
             for (n1, n2, n3) in sizes:
                 if form == "bi" and n3 is not None:
                     continue
+                if q and n3 is not None and fn not in ("isi_distance", "spike_sync", "spike_train_order",
+                                                       "spike_directionality_values", "filter_by_spike_sync",
+                                                       "isi_distance_matrix"):
+                    continue
                 if fn.startswith("spike_pro") or fn.startswith("spike_dist"):
                     if n2 is not None and abs(n2) > 1 and q:
                         continue
                 yield dict(name="measure-%s-%s-%s-%d+%s+%s" % (be, fn, form, n1, n2, n3), what="measure", backend=be,
-                           fn=fn, form=form, n1=n1, n2=n2, n3=n3, fork=("spike_pro" in fn or "spike_dist" in fn),
+                           fn=fn, form=form, n1=n1, n2=n2, n3=n3,
+                           fork=("spike_pro" in fn or "spike_dist" in fn or fn.startswith("isi_")),
                            cost=8 ** (n1 + abs(n2) + (n3 or 0)), validate=3,
                            split_forks=(8 if n1 + abs(n2) + (n3 or 0) >= 4 else None))
                 if (n1, n2, n3) in ((2, 1, None), (2, 1, 1)) and (fn, form) in (
@@ -62,7 +67,7 @@ def configs(tier):
                         ("isi_profile", "bi"), ("spike_sync_profile", "bi")) and (tier != "quick" or n3 is None):
                     # the automatic threshold must be computed from the reconciled trains
                     yield dict(name="measure-auto-%s-%s-%s-%d+%s+%s" % (be, fn, form, n1, n2, n3), what="measure",
-                               backend=be, fn=fn, form=form, n1=n1, n2=n2, n3=n3, auto=True,
+                               backend=be, fn=fn, form=form, n1=n1, n2=n2, n3=n3, auto=True, fork=fn.startswith("isi_"),
                                cost=3 * 8 ** (n1 + abs(n2) + (n3 or 0)), validate=2,
                                split_forks=(8 if n1 + abs(n2) + (n3 or 0) >= 4 else None))
 
@@ -70,11 +75,11 @@ def configs(tier):
 def controls(tier):
     yield dict(name="control-reconcile-no-unique", what="reconcile", backend="py", ns=[2, 0],
                mutations=[("pyspike.spikes", "SpikeTrain(np.unique(s.spikes),", "SpikeTrain(np.sort(s.spikes),")])
-    yield dict(name="control-reconcile-twice-skipped", what="measure", backend="py", fn="isi_distance", form="list",
-               n1=2, n2=1, n3=None,
+    yield dict(name="control-reconcile-skipped", what="measure", backend="py", fn="isi_distance", form="list",
+               n1=2, n2=1, n3=None, fork=True,
                mutations=[("pyspike.generic",
-                           "    if kwargs.get('Reconcile', True):\n        spike_trains = reconcile_spike_trains(spike_trains)\n        kwargs['Reconcile'] = False\n\n    MRTS, RI = resolve_keywords(**kwargs)\n    if isinstance(MRTS, str):\n        kwargs['MRTS'] = default_thresh(spike_trains)\n    \n    if indices is None:",
-                           "    kwargs['Reconcile'] = False\n\n    MRTS, RI = resolve_keywords(**kwargs)\n    if isinstance(MRTS, str):\n        kwargs['MRTS'] = default_thresh(spike_trains)\n    \n    if indices is None:")])
+                           "def _generic_distance_multi(spike_trains, pair_distance_func,\n                            indices=None, interval=None, **kwargs):",
+                           "def _generic_distance_multi(spike_trains, pair_distance_func,\n                            indices=None, interval=None, **kwargs):\n    kwargs['Reconcile'] = False")])
     yield dict(name="control-inplace-sort", what="measure", backend="py", fn="spike_sync", form="bi", n1=2, n2=1, n3=None,
                mutations=[("pyspike.spikes", "    spike_trains = [SpikeTrain(np.unique(s.spikes), ",
                            "    for s in spike_trains:\n        s.spikes.sort()\n    spike_trains = [SpikeTrain(np.unique(s.spikes), ")])
